@@ -1,11 +1,11 @@
 //@@ include contracts/inc_shard_header.rs
 //@@ include contracts/inc_value_units.rs
 verus! {
-spec fn hash_at(s: DatabaseShard, key: Vec<u8>) -> Option<Map<Vec<u8>, Vec<u8>>> {
-    if s.data@.contains_key(key) { match s.data@[key].value { Value::Hash(h) => Some(h@), _ => None } } else { None }
+spec fn hash_at(s: SV, key: Vec<u8>) -> Option<Map<Vec<u8>, Vec<u8>>> {
+    if s.data.contains_key(key) { match s.data[key].value { Value::Hash(h) => Some(h@), _ => None } } else { None }
 }
-spec fn holds_non_hash(s: DatabaseShard, key: Vec<u8>) -> bool {
-    s.data@.contains_key(key) && !(s.data@[key].value is Hash)
+spec fn holds_non_hash(s: SV, key: Vec<u8>) -> bool {
+    s.data.contains_key(key) && !(s.data[key].value is Hash)
 }
 /// HSET k f1 v1 f2 v2 ...: pairs are applied in order (a later pair for the same field wins)
 spec fn apply_pairs(m: Map<Vec<u8>, Vec<u8>>, p: Seq<(Vec<u8>, Vec<u8>)>, n: int) -> Map<Vec<u8>, Vec<u8>>
@@ -53,16 +53,16 @@ impl StorageEngine {
     fn hset(&self, shard_guard: &mut DatabaseShard, key: Key, field_values: Vec<(Vec<u8>, Vec<u8>)>) -> (r: Result<usize>)
         requires field_values@.len() > 0,
         ensures
-            step_ok(*old(shard_guard), *final(shard_guard), key),
-            coll_ok(*old(shard_guard)) ==> coll_ok(*final(shard_guard)),
-            holds_non_hash(*old(shard_guard), key) ==> r is Err && unchanged(*old(shard_guard), *final(shard_guard)),
+            step_ok(eff(*old(shard_guard), key), sv(*final(shard_guard)), key),
+            coll_ok(eff(*old(shard_guard), key)) ==> coll_ok(sv(*final(shard_guard))),
+            holds_non_hash(eff(*old(shard_guard), key), key) ==> r is Err && unchanged(eff(*old(shard_guard), key), sv(*final(shard_guard))),
             // existing hash: pairs applied in order; reply = number of fields that did not exist before
-            hash_at(*old(shard_guard), key) matches Some(m) ==> hash_at(*final(shard_guard), key) == Some(apply_pairs(m, field_values@, field_values@.len() as int))
+            hash_at(eff(*old(shard_guard), key), key) matches Some(m) ==> hash_at(sv(*final(shard_guard)), key) == Some(apply_pairs(m, field_values@, field_values@.len() as int))
                 && r == Ok::<usize, FerrousError>((apply_pairs(m, field_values@, field_values@.len() as int).dom().len() - m.dom().len()) as usize)
-                && final(shard_guard).data@[key].metadata == old(shard_guard).data@[key].metadata,
-            !old(shard_guard).data@.contains_key(key) ==> hash_at(*final(shard_guard), key) == Some(apply_pairs(Map::<Vec<u8>, Vec<u8>>::empty(), field_values@, field_values@.len() as int))
+                && sv(*final(shard_guard)).data[key].metadata == eff(*old(shard_guard), key).data[key].metadata,
+            !eff(*old(shard_guard), key).data.contains_key(key) ==> hash_at(sv(*final(shard_guard)), key) == Some(apply_pairs(Map::<Vec<u8>, Vec<u8>>::empty(), field_values@, field_values@.len() as int))
                 && r == Ok::<usize, FerrousError>(apply_pairs(Map::<Vec<u8>, Vec<u8>>::empty(), field_values@, field_values@.len() as int).dom().len() as usize)
-                && final(shard_guard).data@[key].metadata.expires_at is None,
+                && sv(*final(shard_guard)).data[key].metadata.expires_at is None,
 //@@ body
 //@@ end
 
@@ -71,10 +71,10 @@ impl StorageEngine {
 //@@   rewrite R2
     fn hget(&self, shard_guard: &mut DatabaseShard, key: &[u8], field: &[u8]) -> (r: Result<Option<Vec<u8>>>)
         ensures
-            unchanged(*old(shard_guard), *final(shard_guard)),
-            holds_non_hash(*old(shard_guard), key_of(key@)) ==> r is Err,
-            !old(shard_guard).data@.contains_key(key_of(key@)) ==> r == Ok::<Option<Vec<u8>>, FerrousError>(None),
-            hash_at(*old(shard_guard), key_of(key@)) matches Some(m) ==> r is Ok
+            unchanged(eff(*old(shard_guard), key_of(key@)), sv(*final(shard_guard))),
+            holds_non_hash(eff(*old(shard_guard), key_of(key@)), key_of(key@)) ==> r is Err,
+            !eff(*old(shard_guard), key_of(key@)).data.contains_key(key_of(key@)) ==> r == Ok::<Option<Vec<u8>>, FerrousError>(None),
+            hash_at(eff(*old(shard_guard), key_of(key@)), key_of(key@)) matches Some(m) ==> r is Ok
                 && (m.contains_key(key_of(field@)) ==> (r->Ok_0 matches Some(v) && v@ == m[key_of(field@)]@))
                 && (!m.contains_key(key_of(field@)) ==> r->Ok_0 is None),
 //@@ body
@@ -85,10 +85,10 @@ impl StorageEngine {
 //@@   rewrite R2
     fn hlen(&self, shard_guard: &mut DatabaseShard, key: &[u8]) -> (r: Result<usize>)
         ensures
-            unchanged(*old(shard_guard), *final(shard_guard)),
-            holds_non_hash(*old(shard_guard), key_of(key@)) ==> r is Err,
-            !old(shard_guard).data@.contains_key(key_of(key@)) ==> r == Ok::<usize, FerrousError>(0),
-            hash_at(*old(shard_guard), key_of(key@)) matches Some(m) ==> r == Ok::<usize, FerrousError>(m.dom().len() as usize),
+            unchanged(eff(*old(shard_guard), key_of(key@)), sv(*final(shard_guard))),
+            holds_non_hash(eff(*old(shard_guard), key_of(key@)), key_of(key@)) ==> r is Err,
+            !eff(*old(shard_guard), key_of(key@)).data.contains_key(key_of(key@)) ==> r == Ok::<usize, FerrousError>(0),
+            hash_at(eff(*old(shard_guard), key_of(key@)), key_of(key@)) matches Some(m) ==> r == Ok::<usize, FerrousError>(m.dom().len() as usize),
 //@@ body
 //@@ end
 
@@ -97,10 +97,10 @@ impl StorageEngine {
 //@@   rewrite R2
     fn hexists(&self, shard_guard: &mut DatabaseShard, key: &[u8], field: &[u8]) -> (r: Result<bool>)
         ensures
-            unchanged(*old(shard_guard), *final(shard_guard)),
-            holds_non_hash(*old(shard_guard), key_of(key@)) ==> r is Err,
-            !old(shard_guard).data@.contains_key(key_of(key@)) ==> r == Ok::<bool, FerrousError>(false),
-            hash_at(*old(shard_guard), key_of(key@)) matches Some(m) ==> r == Ok::<bool, FerrousError>(m.contains_key(key_of(field@))),
+            unchanged(eff(*old(shard_guard), key_of(key@)), sv(*final(shard_guard))),
+            holds_non_hash(eff(*old(shard_guard), key_of(key@)), key_of(key@)) ==> r is Err,
+            !eff(*old(shard_guard), key_of(key@)).data.contains_key(key_of(key@)) ==> r == Ok::<bool, FerrousError>(false),
+            hash_at(eff(*old(shard_guard), key_of(key@)), key_of(key@)) matches Some(m) ==> r == Ok::<bool, FerrousError>(m.contains_key(key_of(field@))),
 //@@ body
 //@@ end
 
@@ -112,22 +112,22 @@ impl StorageEngine {
 //@@   rewrite RCALL to_string increment verif_i64_to_string
     fn hincrby(&self, shard_guard: &mut DatabaseShard, key: Key, field: Vec<u8>, increment: i64) -> (r: Result<i64>)
         ensures
-            step_ok(*old(shard_guard), *final(shard_guard), key),
-            coll_ok(*old(shard_guard)) ==> coll_ok(*final(shard_guard)),
+            step_ok(eff(*old(shard_guard), key), sv(*final(shard_guard)), key),
+            coll_ok(eff(*old(shard_guard), key)) ==> coll_ok(sv(*final(shard_guard))),
             // refused (wrong type, field is not an integer, overflow): nothing changes
-            r is Err ==> unchanged(*old(shard_guard), *final(shard_guard)),
-            holds_non_hash(*old(shard_guard), key) ==> r is Err,
+            r is Err ==> unchanged(eff(*old(shard_guard), key), sv(*final(shard_guard))),
+            holds_non_hash(eff(*old(shard_guard), key), key) ==> r is Err,
             // missing key: a hash with the single field = increment
-            !old(shard_guard).data@.contains_key(key) ==> r == Ok::<i64, FerrousError>(increment)
-                && hash_at(*final(shard_guard), key) == Some(Map::<Vec<u8>, Vec<u8>>::empty().insert(field, key_of(i64_str(increment)))),
-            hash_at(*old(shard_guard), key) matches Some(m) ==> (
+            !eff(*old(shard_guard), key).data.contains_key(key) ==> r == Ok::<i64, FerrousError>(increment)
+                && hash_at(sv(*final(shard_guard)), key) == Some(Map::<Vec<u8>, Vec<u8>>::empty().insert(field, key_of(i64_str(increment)))),
+            hash_at(eff(*old(shard_guard), key), key) matches Some(m) ==> (
                 if !m.contains_key(field) {
-                    r == Ok::<i64, FerrousError>(increment) && hash_at(*final(shard_guard), key) == Some(m.insert(field, key_of(i64_str(increment))))
+                    r == Ok::<i64, FerrousError>(increment) && hash_at(sv(*final(shard_guard)), key) == Some(m.insert(field, key_of(i64_str(increment))))
                 } else { match spec_parse_i64(m[field]@) {
                     None => r is Err,
                     Some(cur) => if i64::MIN <= cur + increment <= i64::MAX {
                             r == Ok::<i64, FerrousError>((cur + increment) as i64)
-                            && hash_at(*final(shard_guard), key) == Some(m.insert(field, key_of(i64_str((cur + increment) as i64))))
+                            && hash_at(sv(*final(shard_guard)), key) == Some(m.insert(field, key_of(i64_str((cur + increment) as i64))))
                         } else { r is Err },
                 } }),
 //@@ body
